@@ -132,6 +132,45 @@ pub fn gen_build_case(rng: &mut Rng, tier: Tier) -> BuiltCase {
     // a resolver with nothing to resolve (the builder still calls it with the empty set)
     world.npm = Some(Default::default());
   }
+  // WebAssembly modules: a valid binary whose imports name a module of the world (the imports of a
+  // wasm module are its dependencies), or bytes the wasm parser rejects
+  if rng.chance(10) {
+    let plain: Vec<String> = world.entries.keys().filter(|s| !s.starts_with("npm:") && !s.starts_with("jsr:") && attr_class_target(s, true) == 0 && !s.ends_with(".json")).cloned().collect();
+    let k = world.entries.len();
+    let wasm_spec = format!("{}w{}.wasm", if rng.chance(50) { "file:///p/" } else { "https://h.test/" }, k);
+    let bytes: Vec<u8> = if rng.chance(80) {
+      let mut b = vec![0x00, 0x61, 0x73, 0x6d, 0x01, 0x00, 0x00, 0x00, 0x01, 0x04, 0x01, 0x60, 0x00, 0x00];
+      // import section: functions imported from other modules
+      let n_imp = rng.range(1, 2); // at least one import, re-exported: the generated declaration text is never empty
+      let mut sec = vec![n_imp as u8];
+      for i in 0..n_imp {
+        let target = if !plain.is_empty() && rng.chance(80) { rng.pick(&plain).clone() } else { "https://h.test/nowhere.ts".to_string() };
+        let module = if rng.chance(50) && target.starts_with(origin_of_spec(&wasm_spec)) { format!("./{}", &target[origin_of_spec(&wasm_spec).len()..]) } else { target };
+        sec.push(module.len() as u8);
+        sec.extend(module.as_bytes());
+        sec.push(1);
+        sec.push(b'a' + i as u8);
+        sec.push(0x00);
+        sec.push(0x00);
+      }
+      if n_imp > 0 {
+        b.push(0x02);
+        b.push(sec.len() as u8);
+        b.extend(sec);
+        // export the first imported function
+        b.extend([0x07, 0x05, 0x01, 0x01, b'g', 0x00, 0x00]);
+      }
+      b
+    } else {
+      b"\0asm not really".to_vec()
+    };
+    world.entries.insert(wasm_spec.clone(), Entry::Module { src: ModSrc::default(), raw: Some(bytes), headers: None });
+    let user = format!("file:///p/wasmuser{}.ts", k);
+    let mut src = ModSrc::default();
+    src.imports.push(Imp { form: rng.pick(&[Form::Static, Form::Named, Form::Dynamic, Form::TypeOnly, Form::Named]).clone(), text: wasm_spec.clone() });
+    world.entries.insert(user.clone(), Entry::Module { src, raw: None, headers: None });
+    roots.push(if rng.chance(25) { wasm_spec } else { user });
+  }
   // a resolver (import-map style): bare specifiers mapped to modules of the world, to nothing, or
   // refused; types for untyped modules; a default JSX import source
   if rng.chance(12) {
@@ -181,6 +220,13 @@ pub fn gen_build_case(rng: &mut Rng, tier: Tier) -> BuiltCase {
     world.resolver = Some(cfg);
   }
   BuiltCase { lock: None, world, roots, bcfg, unstable, max_redirects }
+}
+
+fn origin_of_spec(spec: &str) -> &str {
+  match spec.rfind('/') {
+    Some(i) => &spec[..=i],
+    None => spec,
+  }
 }
 
 pub fn real_build(c: &BuiltCase, graph: &mut ModuleGraph, roots: &[String], imports: &[(String, Vec<String>)]) -> Vec<LoadCall> {
@@ -286,6 +332,8 @@ pub fn gen_case(seed: u64, k: u64, tier: Tier) -> Case {
       ("loader_calls".to_string(), log.len() as u64),
       (format!("npm_resolver_{}", c.world.npm.is_some()), 1),
       (format!("resolver_{}", c.world.resolver.is_some()), 1),
+      (format!("wasm_modules_{}", graph.modules().filter(|m| matches!(m, Module::Wasm(_))).count().min(2)), 1),
+      (format!("wasm_parse_errors_{}", graph.module_errors().filter(|e| matches!(e.as_kind(), ModuleErrorKind::WasmParse { .. })).count().min(2)), 1),
       (format!("npm_specifier_entries_{}", graph.specifiers().filter(|(s, _)| s.scheme() == "npm").count().min(3)), 1),
       (format!("jsr_passthrough_{}_entries_{}", c.world.passthrough_jsr, graph.specifiers().filter(|(s, _)| s.scheme() == "jsr").count().min(3)), 1),
     ],
